@@ -350,7 +350,22 @@ func (w *world) exec(st *jstep) error {
 
 // ---- Gallina rendering ----
 
-func nameT(s string) string { return vh.Bytes([]byte(s)) }
+// names of the fixed universe are defined once in the shard header (keeps the terms small)
+var knownNames = map[string]bool{"m0": true, "m1": true, "mr": true, "a": true, "b": true, "c": true, "fr": true}
+
+func nameT(s string) string {
+	if knownNames[s] {
+		return "n_" + s
+	}
+	return vh.Bytes([]byte(s))
+}
+func nameDefs() string {
+	var b strings.Builder
+	for _, n := range vh.SortedKeys(knownNames) {
+		b.WriteString("\nDefinition n_" + n + " : name := " + vh.Bytes([]byte(n)) + ".")
+	}
+	return b.String()
+}
 func schemaT(s jschema) string {
 	var ms []string
 	for _, m := range vh.SortedKeys(s) {
@@ -582,7 +597,7 @@ func corpus() []jcase {
 }
 
 func main() {
-	w := vh.New("C10", "From Verif Require Import Base.Prelude Model.C10.", "case", "check")
+	w := vh.New("C10", "From Verif Require Import Base.Prelude Model.C10."+nameDefs(), "case", "check")
 	w.Rule = "histories of 2-9 steps on a real tsdb.Shard over 2 measurements x 3 fields x 5 types: writes of 1-3 points with 1-3 fields (biased to reuse existing fields with the same or another type), DeleteMeasurement, clean reopen, crash reopen (directory copy); on marked steps every torn tail of the appended change-log bytes is loaded; every 4th case races 2-4 goroutines on one new field. Non-trivial: a conflict, a drop or a crash occurs (race: at least two distinct types). Distinct: distinct Gallina terms (inputs+observations)."
 	var rc jcase
 	if w.ReplayCase(&rc) {
